@@ -75,6 +75,12 @@ def blocks(tier, seed):
         for pz in (False, True):
             for w0 in alph:
                 out.append({"grid": {"kind": "cyl", "shape": list(shape), "R": 0.5 * shape[0], "z": [-1.5, -1.5 + 0.75 * shape[1]], "periodic_z": pz}, "profile": alph, "prefix": [w0], "via_field": False})
+    # histories: every 3x3 / 2x2x2 image analysed under two different periodicity masks alternately in one fresh process
+    for shape in ((3, 3), (2, 2, 2)):
+        masks = list(itertools.product((False, True), repeat=len(shape)))
+        for a in range(len(masks)):
+            for b in range(a + 1, len(masks)):
+                out.append({"alternate": [list(masks[a]), list(masks[b])], "shape": list(shape)})
     # catalogue of larger structured images (complement; enumerated completely, but not an exhaustive image space)
     for mask in itertools.product((False, True), repeat=2):
         out.append({"grid": cart((12, 12), mask), "catalogue": seed % 4, "prefix": [], "via_field": True})
@@ -104,6 +110,20 @@ def catalogue(variant):
 
 
 def cases(block):
+    if "alternate" in block:
+        shape = block["shape"]
+        ga, gb = cart(shape, block["alternate"][0]), cart(shape, block["alternate"][1])
+        n = int(np.prod(shape))
+        seq = []
+        for bits in itertools.product((0, 1), repeat=n):
+            if sum(bits) >= 2:
+                b = "".join(map(str, bits))
+                seq += [{"grid": ga, "bits": b, "via_field": False}, {"grid": gb, "bits": b, "via_field": False}]
+        # one long alternating sequence per pair of masks (A, B, A, B, ...), cut into chunks that each start in a fresh process
+        for i in range(0, len(seq), 64):
+            yield {"sequence": seq[i:i + 64]}
+            yield {"sequence": seq[i + 1:i + 65]}
+        return
     g = block["grid"]
     if "catalogue" in block:
         for i, img in enumerate(catalogue(block["catalogue"])):
@@ -155,6 +175,11 @@ def run_case(case, ctx):
 
     from droplets.image_analysis import locate_droplets, locate_droplets_in_mask
 
+    if "sequence" in case:
+        from mcx import core
+
+        ctx.count("alternating-mask-sequences")
+        return core.run_sequence_in_fork(run_case, case["sequence"], ctx, tag={"history": True})
     g = case["grid"]
     shape = tuple(g["shape"])
     img = np.array([c == "1" for c in case["bits"]], bool).reshape(shape)
@@ -358,4 +383,4 @@ def run_case(case, ctx):
 
 def expected_positive(tier):
     return ["C02.bijection", "C02.disjoint", "C02.omitted", "C02.cyl-empty", "C02.inbox", "C02.entry-point", "winding-components",
-            "components-crossing-a-periodic-boundary", "corner-crossing-components", "omitted-components", "cyl-off-axis-only", "multi-component-images", "cyl-profile-images"]
+            "components-crossing-a-periodic-boundary", "corner-crossing-components", "omitted-components", "cyl-off-axis-only", "multi-component-images", "cyl-profile-images", "alternating-mask-sequences"]
